@@ -1,7 +1,432 @@
 package vc
 
-// StructuralObligations computes obligations decided by dataflow over SSA (no SMT).
+import (
+	"fmt"
+	"go/types"
+	"strings"
+
+	"golang.org/x/tools/go/ssa"
+)
+
+// StructuralObligations computes obligations decided by dataflow over SSA (no SMT):
+// the `structural` clauses of function contracts and the `guarded_by` declarations.
 func (e *Engine) StructuralObligations(want map[string]bool) ([]*Obligation, error) {
 	var out []*Obligation
+	for _, c := range e.SortedContracts() {
+		if c.Fn == nil {
+			continue
+		}
+		for _, sc := range c.Structural {
+			props := sc.Props
+			if len(props) == 0 {
+				props = c.Props
+			}
+			if !hasProp(props, want) {
+				continue
+			}
+			label := sc.Label
+			if label == "" {
+				label = sc.Kind
+			}
+			o := &Obligation{Name: fmt.Sprintf("%s#structural:%s", funcDisplayName(c.Fn), label), Func: funcDisplayName(c.Fn), Kind: "structural",
+				Props: props, Structu: true, Src: sc.Kind + " " + strings.Join(sc.Args, " ")}
+			switch sc.Kind {
+			case "confine_recover":
+				o.StructOK, o.StructMsg = checkConfineRecover(c.Fn)
+			case "defers_before_calls":
+				o.StructOK, o.StructMsg = checkDefersBeforeCalls(c.Fn, sc.Args)
+			case "no_global_stores":
+				o.StructOK, o.StructMsg = e.checkNoGlobalStores(c.Fn, sc.Args)
+			default:
+				return nil, fmt.Errorf("%s:%d: unknown structural clause %q", c.File, sc.Line, sc.Kind)
+			}
+			out = append(out, o)
+		}
+	}
+	gs, err := e.guardObligations(want)
+	if err != nil {
+		return nil, err
+	}
+	out = append(out, gs...)
 	return out, nil
+}
+
+func calleeName(call *ssa.CallCommon) string {
+	if call.IsInvoke() {
+		return call.Method.Name()
+	}
+	switch v := call.Value.(type) {
+	case *ssa.Function:
+		return v.Name()
+	case *ssa.Builtin:
+		return v.Name()
+	case *ssa.MakeClosure:
+		return v.Fn.Name()
+	}
+	return ""
+}
+
+// checkConfineRecover: the first effectful instruction of the function registers a deferred function literal
+// whose own body calls the builtin recover directly. (`defer recover()` does not qualify: recover must be
+// called directly by the deferred function, Go spec "Handling panics".)
+func checkConfineRecover(fn *ssa.Function) (bool, string) {
+	for _, in := range fn.Blocks[0].Instrs {
+		switch in := in.(type) {
+		case *ssa.Defer:
+			if b, ok := in.Call.Value.(*ssa.Builtin); ok && b.Name() == "recover" {
+				return false, "`defer recover()` makes recover the deferred function itself; it returns nil and the panic continues"
+			}
+			var lit *ssa.Function
+			switch v := in.Call.Value.(type) {
+			case *ssa.MakeClosure:
+				lit = v.Fn.(*ssa.Function)
+			case *ssa.Function:
+				lit = v
+			}
+			if lit == nil || len(lit.Blocks) == 0 {
+				return false, "first deferred call is not a function literal"
+			}
+			for _, b := range lit.Blocks {
+				for _, i2 := range b.Instrs {
+					if c, ok := i2.(*ssa.Call); ok {
+						if bi, ok := c.Call.Value.(*ssa.Builtin); ok && bi.Name() == "recover" {
+							return true, ""
+						}
+					}
+				}
+			}
+			return false, "the first deferred function does not call recover() directly"
+		case *ssa.Call:
+			if b, ok := in.Call.Value.(*ssa.Builtin); ok && strings.HasPrefix(b.Name(), "ssa:") {
+				continue
+			}
+			return false, "a call (" + calleeName(&in.Call) + ") precedes the registration of the recovering deferred function"
+		case *ssa.Go:
+			return false, "a go statement precedes the registration of the recovering deferred function"
+		}
+	}
+	return false, "no deferred recovering function is registered in the entry block"
+}
+
+// checkDefersBeforeCalls: for every Defer of a call whose callee name contains one of the given substrings,
+// count them; every such defer must be in a block that dominates all Return instructions, so that it runs on
+// every exit. At least one must exist per substring.
+func checkDefersBeforeCalls(fn *ssa.Function, names []string) (bool, string) {
+	for _, want := range names {
+		found := 0
+		for _, b := range fn.Blocks {
+			for _, in := range b.Instrs {
+				d, ok := in.(*ssa.Defer)
+				if !ok || !strings.Contains(calleeName(&d.Call), want) {
+					continue
+				}
+				found++
+				for _, rb := range fn.Blocks {
+					if rb == fn.Recover {
+						continue
+					}
+					for _, ri := range rb.Instrs {
+						if _, isRet := ri.(*ssa.Return); isRet && !b.Dominates(rb) {
+							return false, fmt.Sprintf("defer of %s does not dominate every return", calleeName(&d.Call))
+						}
+					}
+				}
+			}
+		}
+		if found == 0 {
+			return false, "no deferred call to " + want
+		}
+	}
+	return true, ""
+}
+
+// checkNoGlobalStores: the function (and function literals inside it) stores to no package-level variable
+// other than those listed.
+func (e *Engine) checkNoGlobalStores(fn *ssa.Function, allowed []string) (bool, string) {
+	ok, msg := true, ""
+	var visit func(f *ssa.Function)
+	visit = func(f *ssa.Function) {
+		for _, b := range f.Blocks {
+			for _, in := range b.Instrs {
+				if st, isStore := in.(*ssa.Store); isStore {
+					if g, isG := st.Addr.(*ssa.Global); isG {
+						al := false
+						for _, a := range allowed {
+							if a == g.Name() {
+								al = true
+							}
+						}
+						if !al {
+							ok, msg = false, "stores to package-level variable "+g.Name()
+						}
+					}
+				}
+			}
+		}
+		for _, an := range f.AnonFuncs {
+			visit(an)
+		}
+	}
+	visit(fn)
+	return ok, msg
+}
+
+// ---------- guarded_by ----------
+
+// guardObligations: every load/store of a guarded field anywhere in the loaded module packages must happen
+// while the named lock of the same object is held (must-hold lock set, intraprocedural; functions may declare
+// `structural holds <lock>` to state that their callers hold it).
+func (e *Engine) guardObligations(want map[string]bool) ([]*Obligation, error) {
+	var out []*Obligation
+	for _, g := range e.Guards {
+		if !hasProp(g.Props, want) {
+			continue
+		}
+		st, err := e.lookupNamed(g.Pkg, g.Type)
+		if err != nil {
+			return nil, fmt.Errorf("guarded_by: %v", err)
+		}
+		u, ok := st.Underlying().(*types.Struct)
+		if !ok {
+			return nil, fmt.Errorf("guarded_by: %s is not a struct", g.Type)
+		}
+		fields := map[int]string{}
+		for i := 0; i < u.NumFields(); i++ {
+			for _, f := range g.Fields {
+				if u.Field(i).Name() == f {
+					fields[i] = f
+				}
+			}
+		}
+		if len(fields) != len(g.Fields) {
+			return nil, fmt.Errorf("CONTRACT-STALE guarded_by: some of the fields %v not found in %s", g.Fields, g.Type)
+		}
+		for _, sp := range e.SSAPkgs {
+			if !e.inModule(sp.Pkg) {
+				continue
+			}
+			for _, fn := range allFunctions(sp) {
+				out = append(out, e.guardFunc(fn, st, fields, g)...)
+			}
+		}
+	}
+	return out, nil
+}
+
+func allFunctions(p *ssa.Package) []*ssa.Function {
+	var out []*ssa.Function
+	var add func(f *ssa.Function)
+	add = func(f *ssa.Function) {
+		if f == nil || len(f.Blocks) == 0 {
+			return
+		}
+		out = append(out, f)
+		for _, a := range f.AnonFuncs {
+			add(a)
+		}
+	}
+	for _, m := range p.Members {
+		switch m := m.(type) {
+		case *ssa.Function:
+			add(m)
+		case *ssa.Type:
+			for _, t := range []types.Type{m.Type(), types.NewPointer(m.Type())} {
+				ms := p.Prog.MethodSets.MethodSet(t)
+				for i := 0; i < ms.Len(); i++ {
+					f := p.Prog.MethodValue(ms.At(i))
+					if f != nil && f.Pkg == p {
+						dup := false
+						for _, o := range out {
+							if o == f {
+								dup = true
+							}
+						}
+						if !dup {
+							add(f)
+						}
+					}
+				}
+			}
+		}
+	}
+	return out
+}
+
+func (e *Engine) guardFunc(fn *ssa.Function, st types.Type, fields map[int]string, g GuardInfo) []*Obligation {
+	if fn.Synthetic != "" {
+		return nil
+	}
+	var out []*Obligation
+	// must-hold dataflow: set of lock "keys" (string of the SSA value path of the receiver object + lock field)
+	type lockset map[string]bool
+	in := map[*ssa.BasicBlock]lockset{}
+	entryHeld := lockset{}
+	if c := e.contractOfFn(fn); c != nil {
+		for _, sc := range c.Structural {
+			if sc.Kind == "holds" {
+				for _, a := range sc.Args {
+					entryHeld[a] = true
+				}
+			}
+		}
+	}
+	objKey := func(v ssa.Value) string { return valuePath(v) }
+	transfer := func(b *ssa.BasicBlock, ls lockset, report bool) lockset {
+		cur := lockset{}
+		for k := range ls {
+			cur[k] = true
+		}
+		for _, instr := range b.Instrs {
+			switch instr := instr.(type) {
+			case *ssa.Call:
+				name := calleeName(&instr.Call)
+				if (name == "Lock" || name == "RLock" || name == "Unlock" || name == "RUnlock") && len(instr.Call.Args) > 0 {
+					if fa, ok := instr.Call.Args[0].(*ssa.FieldAddr); ok {
+						k := objKey(fa.X) + "." + fieldNameOf(fa)
+						if name == "Lock" || name == "RLock" {
+							cur[k] = true
+						} else {
+							delete(cur, k)
+						}
+					}
+				}
+			case *ssa.FieldAddr:
+				pt, ok := instr.X.Type().Underlying().(*types.Pointer)
+				if !ok || !types.Identical(pt.Elem(), st) {
+					continue
+				}
+				fname, guarded := fields[instr.Field]
+				if !guarded || !report {
+					continue
+				}
+				k := objKey(instr.X) + "." + g.Lock
+				held := cur[k] || cur["recv."+g.Lock] && false
+				for hk := range cur {
+					if strings.HasSuffix(hk, "."+g.Lock) && (hk == k || entryHeld[g.Lock]) {
+						held = true
+					}
+				}
+				if entryHeld[g.Lock] {
+					held = true
+				}
+				kind := "load"
+				if refs := instr.Referrers(); refs != nil {
+					for _, r := range *refs {
+						if s, ok := r.(*ssa.Store); ok && s.Addr == instr {
+							kind = "store"
+						}
+					}
+				}
+				n := 0
+				for _, o := range out {
+					if strings.Contains(o.Name, fmt.Sprintf("guard:%s.%s@%s:%s", g.Type, fname, funcDisplayName(fn), kind)) {
+						n++
+					}
+				}
+				name := fmt.Sprintf("guard:%s.%s@%s:%s#%d", g.Type, fname, funcDisplayName(fn), kind, n+1)
+				pos := ""
+				if instr.Pos().IsValid() {
+					p := e.Fset.Position(instr.Pos())
+					pos = fmt.Sprintf("%s:%d", shortFile(p.Filename), p.Line)
+				}
+				msg := ""
+				if !held {
+					msg = fmt.Sprintf("%s of %s.%s without holding %s", kind, g.Type, fname, g.Lock)
+				}
+				out = append(out, &Obligation{Name: name, Func: funcDisplayName(fn), Kind: "guard", Props: g.Props, Structu: true, StructOK: held, StructMsg: msg, Pos: pos,
+					Src: fmt.Sprintf("guarded_by %s.%s", g.Type, g.Lock)})
+			}
+		}
+		return cur
+	}
+	// fixpoint
+	in[fn.Blocks[0]] = entryHeld
+	changed := true
+	outSets := map[*ssa.BasicBlock]lockset{}
+	for iter := 0; changed && iter < 50; iter++ {
+		changed = false
+		for _, b := range fn.Blocks {
+			var ls lockset
+			if b == fn.Blocks[0] {
+				ls = entryHeld
+			} else {
+				first := true
+				for _, p := range b.Preds {
+					po, ok := outSets[p]
+					if !ok {
+						continue
+					}
+					if first {
+						ls = lockset{}
+						for k := range po {
+							ls[k] = true
+						}
+						first = false
+					} else {
+						for k := range ls {
+							if !po[k] {
+								delete(ls, k)
+							}
+						}
+					}
+				}
+				if ls == nil {
+					ls = lockset{}
+				}
+			}
+			in[b] = ls
+			no := transfer(b, ls, false)
+			if !sameSet(no, outSets[b]) {
+				outSets[b] = no
+				changed = true
+			}
+		}
+	}
+	for _, b := range fn.Blocks {
+		transfer(b, in[b], true)
+	}
+	return out
+}
+
+func sameSet(a, b map[string]bool) bool {
+	if b == nil || len(a) != len(b) {
+		return false
+	}
+	for k := range a {
+		if !b[k] {
+			return false
+		}
+	}
+	return true
+}
+
+func fieldNameOf(fa *ssa.FieldAddr) string {
+	st := fa.X.Type().Underlying().(*types.Pointer).Elem().Underlying().(*types.Struct)
+	return st.Field(fa.Field).Name()
+}
+
+// valuePath gives a syntactic access path for an SSA value (naive form: loads of named cells).
+func valuePath(v ssa.Value) string {
+	switch v := v.(type) {
+	case *ssa.UnOp:
+		return valuePath(v.X)
+	case *ssa.Alloc:
+		return v.Comment
+	case *ssa.Parameter:
+		return v.Name()
+	case *ssa.FieldAddr:
+		return valuePath(v.X) + "." + fieldNameOf(v)
+	case *ssa.FreeVar:
+		return v.Name()
+	case *ssa.Global:
+		return v.Name()
+	}
+	return v.Name()
+}
+
+func (e *Engine) contractOfFn(fn *ssa.Function) *Contract {
+	if obj, ok := fn.Object().(*types.Func); ok {
+		return e.Contracts[obj]
+	}
+	return nil
 }
